@@ -173,12 +173,14 @@ theorem splitIncl_flatten (s : Str) : (splitIncl s).flatten = s := by
 def kwds : List Str :=
   [kwSkip, kwPlatform, kwFailFast, kwError, kwLanguage, kwCst]
 
-/-- A name that `parse_header` takes as the single name line and reads back unchanged. -/
+/-- A line that `parse_header` takes as part of the test name: not `===…`, not blank, not starting with an
+attribute keyword. -/
+def NameLineOK (l : Str) : Prop :=
+  NoDelim '=' l ∧ trim l ≠ [] ∧ (trim l).takeWhile (· != '(') ∉ kwds
+
+/-- A name (one or several lines) that `parse_header` reads back unchanged. -/
 structure NameOK (name : Str) : Prop where
-  noNl : '\n' ∉ name
-  noDelim : NoDelim '=' (name ++ ['\n'])
-  nonblank : trim (name ++ ['\n']) ≠ []
-  notMarker : (trim (name ++ ['\n'])).takeWhile (· != '(') ∉ kwds
+  lines : ∀ l ∈ splitIncl (name ++ ['\n']), NameLineOK l
   trimmed : trimEnd (name ++ ['\n']) = name
 
 /-- A line that `parse_header` recognises as an attribute: `:skip`, `:fail-fast`, `:error`, `:cst` (with
@@ -197,7 +199,7 @@ def AttrsOK (a : Str) : Prop :=
             (∀ l ∈ splitIncl (a ++ ['\n']), NoDelim '=' l) ∧ trimEnd (a ++ ['\n']) = a)
 
 /-- The corrections for which the round trip is proved: delimiters of length ≥ 3, a one-line name
-that is not blank / not a marker / not `===…`, attribute text as in `AttrsOK`, and no line of the input or of the
+(one or several lines, none blank / a marker / `===…`), attribute text as in `AttrsOK`, and no line of the input or of the
 (trimmed) expectation starts with `===` or `---`; the input does not end in a carriage return. -/
 structure Simple (c : Correction) : Prop where
   hlen : 3 ≤ c.hlen
@@ -217,8 +219,10 @@ theorem suffixMatches_fsOf (suf : Str) : suffixMatches (fsOf suf) suf = true := 
 def attrLines (c : Correction) : List Str :=
   if c.attrsStr.isEmpty then [] else splitIncl (c.attrsStr ++ ['\n'])
 
+def nameLines (c : Correction) : List Str := splitIncl (c.name ++ ['\n'])
+
 def hdrL (suf : Str) (c : Correction) : List Str :=
-  (rep '=' c.hlen ++ (suf ++ ['\n'])) :: (c.name ++ ['\n']) :: (attrLines c ++ [rep '=' c.hlen ++ (suf ++ ['\n'])])
+  (rep '=' c.hlen ++ (suf ++ ['\n'])) :: (nameLines c ++ (attrLines c ++ [rep '=' c.hlen ++ (suf ++ ['\n'])]))
 
 def bodyL (suf : Str) (c : Correction) : List Str :=
   splitIncl (c.input ++ ['\n']) ++ ((rep '-' c.dlen ++ (suf ++ ['\n'])) :: ['\n'] :: splitIncl (trim c.output ++ ['\n']))
@@ -228,10 +232,31 @@ def noCstLine (l : Str) : Prop := (trim l).takeWhile (· != '(') ≠ kwCst
 
 instance (l : Str) : Decidable (noCstLine l) := by unfold noCstLine; infer_instance
 
+/-- Folding `headerLine` over lines (stopping at a rejected line). -/
+def foldHeader (os : Str) : List Str → HState → HState
+  | [], st => st
+  | l :: ls, st => match headerLine os st l with
+    | some st' => foldHeader os ls st'
+    | none => st
+
+/-- The attribute flags `parse_header` builds from its final state. -/
+def attrsOfState (st : HState) : Attrs :=
+  { platform := st.platform.getD true, failFast := st.failFast,
+    expect := match st.seenSkip, st.seenError with
+      | true, _ => Expect.skip
+      | false, false => Expect.pass
+      | false, true => Expect.error,
+    cst := st.cst, languages := if st.languages.isEmpty then [[]] else st.languages }
+
+/-- The attribute flags that a header with this (one-line) name and this attribute text has. -/
+def flagsOf (os name a : Str) : Attrs :=
+  attrsOfState (foldHeader os (if a.isEmpty then [] else splitIncl (a ++ ['\n'])) { testName := name ++ ['\n'] })
+
 /-- The pending header is the one of correction `c`. -/
-def PendOf (p : Pending) (c : Correction) : Prop :=
+def PendOf (os : Str) (p : Pending) (c : Correction) : Prop :=
   p.name = c.name ∧ p.attrsStr = c.attrsStr ∧ p.hlen = c.hlen ∧
-  ((∀ l ∈ splitIncl (c.attrsStr ++ ['\n']), noCstLine l) → p.attrs.cst = false)
+  ((∀ l ∈ splitIncl (c.attrsStr ++ ['\n']), noCstLine l) → p.attrs.cst = false) ∧
+  p.attrs = flagsOf os c.name c.attrsStr
 
 theorem stripPrefix_append (s t : Str) : stripPrefix s (s ++ t) = some t := by
   induction s with
@@ -248,18 +273,34 @@ theorem isHeaderDelim_rep (suf : Str) (n : Nat) (hn : 3 ≤ n) (hs : SufOK '=' s
 theorem isHeaderDelim_noDelim (fs : Option Str) (l : Str) (h : NoDelim '=' l) : isHeaderDelim fs l = false := by
   simp [isHeaderDelim, parseDelimLine_noDelim h]
 
-theorem headerLine_name (os : Str) (name : Str) (h : NameOK name) :
-    headerLine os {} (name ++ ['\n']) = some { testName := name ++ ['\n'] } := by
-  have hm := h.notMarker
+theorem headerLine_name (os : Str) (st : HState) (l : Str) (hs : st.seenMarker = false) (h : NameLineOK l) :
+    headerLine os st l = some { st with testName := st.testName ++ l } := by
+  have hm := h.2.2
   simp only [kwds, List.mem_cons, List.not_mem_nil, or_false, not_or] at hm
   obtain ⟨h1, h2, h3, h4, h5, h6⟩ := hm
-  have hne : (trim (name ++ ['\n'])).isEmpty = false := by
-    cases ht : trim (name ++ ['\n']) with
-    | nil => exact absurd ht h.nonblank
+  have hne : (trim l).isEmpty = false := by
+    cases ht : trim l with
+    | nil => exact absurd ht h.2.1
     | cons _ _ => rfl
   unfold headerLine
   simp only [hne, Bool.false_and, Bool.false_eq_true, ↓reduceIte]
-  simp [h1, h2, h3, h4, h5, h6]
+  simp [h1, h2, h3, h4, h5, h6, hs]
+
+/-- The `while` loop of `parse_header` over the name lines. -/
+theorem headerLoop_names (fs : Option Str) (os : Str) (rest : List Str) :
+    ∀ (nls : List Str) (st : HState) (k : Nat), st.seenMarker = false → (∀ l ∈ nls, NameLineOK l) →
+      headerLoop fs os (nls ++ rest) st k =
+        headerLoop fs os rest { st with testName := st.testName ++ nls.flatten } (k + nls.length)
+  | [], st, k, _, _ => by simp
+  | l :: ls, st, k, hs, h => by
+    have hl := h l (by simp)
+    simp only [List.cons_append, headerLoop, isHeaderDelim_noDelim fs l hl.1, Bool.false_eq_true, ↓reduceIte,
+      headerLine_name os st l hs hl]
+    have ih := headerLoop_names fs os rest ls { st with testName := st.testName ++ l } (k + 1) hs
+      (fun x hx => h x (by simp [hx]))
+    refine ih.trans ?_
+    have e : k + 1 + ls.length = k + (l :: ls).length := by simp; omega
+    rw [e]; simp [List.append_assoc]
 
 /-- Once a marker has been seen, every further line is accepted and leaves the name alone (and the
 `:cst` flag, unless the line is `:cst`). -/
@@ -314,12 +355,13 @@ theorem headerLine_marker (os : Str) (st : HState) (l : Str) (h : markerLine l =
 theorem headerLoop_attrs (fs : Option Str) (os : Str) (H : Str) (rest : List Str) (hH : isHeaderDelim fs H = true) :
     ∀ (als : List Str) (st : HState) (k : Nat), st.seenMarker = true → (∀ l ∈ als, NoDelim '=' l) →
       ∃ st', headerLoop fs os (als ++ H :: rest) st k = some (st', k + als.length + 1) ∧ st'.testName = st.testName ∧
-        ((∀ l ∈ als, noCstLine l) → st'.cst = st.cst)
-  | [], st, k, _, _ => ⟨st, by simp [headerLoop, hH], rfl, fun _ => rfl⟩
+        ((∀ l ∈ als, noCstLine l) → st'.cst = st.cst) ∧ st' = foldHeader os als st
+  | [], st, k, _, _ => ⟨st, by simp [headerLoop, hH], rfl, fun _ => rfl, rfl⟩
   | l :: ls, st, k, hs, hnd => by
     obtain ⟨st1, h1, h2, h3, h3c⟩ := headerLine_seen os st l hs
-    obtain ⟨st', h4, h5, h5c⟩ := headerLoop_attrs fs os H rest hH ls st1 (k + 1) h2 (fun x hx => hnd x (by simp [hx]))
-    refine ⟨st', ?_, h5.trans h3, fun hc => (h5c (fun x hx => hc x (by simp [hx]))).trans (h3c (hc l (by simp)))⟩
+    obtain ⟨st', h4, h5, h5c, h5f⟩ := headerLoop_attrs fs os H rest hH ls st1 (k + 1) h2 (fun x hx => hnd x (by simp [hx]))
+    refine ⟨st', ?_, h5.trans h3, fun hc => (h5c (fun x hx => hc x (by simp [hx]))).trans (h3c (hc l (by simp))),
+      by simp [foldHeader, h1, h5f]⟩
     simp only [List.cons_append, headerLoop, isHeaderDelim_noDelim fs l (hnd l (by simp)), Bool.false_eq_true,
       ↓reduceIte, h1, h4, List.length_cons]
     congr 2; omega
@@ -337,58 +379,66 @@ theorem attrLines_noDelim (c : Correction) (h : Simple c) : ∀ l ∈ attrLines 
     · simp_all
     · exact hnd l hl
 
-/-- `parse_header` on the header lines the writer produced. -/
-theorem parseHeader_hdr (os suf : Str) (c : Correction) (rest : List Str) (h : Simple c) (hs : SufOK '=' suf) :
-    ∃ p, parseHeader (fsOf suf) os (hdrL suf c ++ rest) = some (p, (hdrL suf c).length) ∧ PendOf p c := by
-  have hd := parseDelimLine_rep '=' c.hlen suf h.hlen (by decide) hs
+theorem nameLines_flatten (c : Correction) : (nameLines c).flatten = c.name ++ ['\n'] := splitIncl_flatten _
+
+/-- The whole `while` loop of `parse_header` on the name and attribute lines the writer produced. -/
+theorem headerLoop_hdr (os suf : Str) (c : Correction) (rest : List Str) (h : Simple c) (hs : SufOK '=' suf) :
+    ∃ st', headerLoop (fsOf suf) os (nameLines c ++ (attrLines c ++ (rep '=' c.hlen ++ (suf ++ ['\n'])) :: rest)) {} 0 =
+        some (st', (nameLines c).length + (attrLines c).length + 1) ∧
+      st'.testName = c.name ++ ['\n'] ∧
+      ((∀ x ∈ splitIncl (c.attrsStr ++ ['\n']), noCstLine x) → st'.cst = false) ∧
+      attrsOfState st' = flagsOf os c.name c.attrsStr := by
   have hH := isHeaderDelim_rep suf c.hlen h.hlen hs
-  have e1 : trimEnd ([] : Str) = [] := rfl
+  rw [headerLoop_names (fsOf suf) os _ (nameLines c) {} 0 rfl h.name.lines, nameLines_flatten]
+  simp only [List.nil_append, Nat.zero_add]
   rcases h.attrs with ha | ⟨⟨l, ls, hl, hm⟩, hnd, htrim⟩
-  · -- no attribute text
-    have hal : attrLines c = [] := by simp [attrLines, ha]
-    have hsp := stripPrefix_append (c.name ++ ['\n']) []
-    simp only [List.append_nil] at hsp
-    simp only [hdrL, hal, List.nil_append, List.cons_append, parseHeader, hd, suffixMatches_fsOf, Bool.not_true,
-      Bool.false_eq_true, ↓reduceIte, headerLoop, isHeaderDelim_noDelim _ _ h.name.noDelim,
-      headerLine_name os c.name h.name, hH, List.length_cons, List.length_nil]
-    refine ⟨_, rfl, ?_⟩
-    simp [PendOf, hsp, e1, h.name.trimmed, ha]
-  · -- attribute lines
-    have hne : c.attrsStr ≠ [] := by
+  · have hal : attrLines c = [] := by simp [attrLines, ha]
+    refine ⟨{ testName := c.name ++ ['\n'] }, by simp [hal, headerLoop, hH], rfl, fun _ => rfl, ?_⟩
+    simp [flagsOf, ha, foldHeader]
+  · have hne : c.attrsStr ≠ [] := by
       intro h0; rw [h0] at hl; simp [splitIncl] at hl
       have := hl.1; subst this
       simp [markerLine, trim, trimStart, trimEnd, dropWhileEnd, isWs] at hm
-    have hal : attrLines c = l :: ls := by
-      have : c.attrsStr.isEmpty = false := by cases hc : c.attrsStr <;> simp_all
-      simp [attrLines, this, hl]
+    have hemp : c.attrsStr.isEmpty = false := by cases hc0 : c.attrsStr <;> simp_all
+    have hal : attrLines c = l :: ls := by simp [attrLines, hemp, hl]
     obtain ⟨st2, h1, h2, h3, h3c⟩ := headerLine_marker os { testName := c.name ++ ['\n'] } l hm
     have hndl : NoDelim '=' l := hnd l (by simp [hl])
-    obtain ⟨st', h4, h5, h5c⟩ := headerLoop_attrs (fsOf suf) os _ rest hH ls st2 2 h2
+    obtain ⟨st', h4, h5, h5c, h5f⟩ := headerLoop_attrs (fsOf suf) os _ rest hH ls st2 ((nameLines c).length + 1) h2
       (fun x hx => hnd x (by simp [hl, hx]))
-    have hfl := attrLines_flatten c hne
-    rw [hal] at hfl
-    have hb : (((c.name ++ ['\n']) :: l :: (ls ++ (rep '=' c.hlen ++ (suf ++ ['\n'])) :: rest)).take (2 + ls.length + 1 - 1)).flatten
-        = (c.name ++ ['\n']) ++ (c.attrsStr ++ ['\n']) := by
-      have : 2 + ls.length + 1 - 1 = ls.length + 2 := by omega
-      rw [this]
-      simp only [List.take_succ_cons, List.flatten_cons]
-      rw [List.take_left' rfl]
-      simp at hfl
-      simp [hfl]
-    simp only [hdrL, hal, List.cons_append, List.nil_append, parseHeader, hd, suffixMatches_fsOf, Bool.not_true,
-      Bool.false_eq_true, ↓reduceIte, headerLoop, isHeaderDelim_noDelim _ _ h.name.noDelim,
-      headerLine_name os c.name h.name, isHeaderDelim_noDelim _ _ hndl, h1, List.append_assoc, Nat.zero_add,
-      Nat.reduceAdd, h4, List.length_cons, List.length_append, List.length_nil, hb, Option.some.injEq,
-      Prod.mk.injEq]
-    refine ⟨_, ⟨rfl, by omega⟩, ?_⟩
-    have hsp2 : stripPrefix (c.name ++ ['\n']) (c.name ++ '\n' :: (c.attrsStr ++ ['\n'])) = some (c.attrsStr ++ ['\n']) := by
-      have := stripPrefix_append (c.name ++ ['\n']) (c.attrsStr ++ ['\n'])
-      simpa using this
-    have hcst : (∀ x ∈ splitIncl (c.attrsStr ++ ['\n']), noCstLine x) → st'.cst = false := by
-      intro hc
+    refine ⟨st', ?_, h5.trans h3, ?_, ?_⟩
+    · simp only [hal, List.cons_append, headerLoop, isHeaderDelim_noDelim _ _ hndl, Bool.false_eq_true, ↓reduceIte, h1, h4,
+        List.length_cons]
+      congr 2; omega
+    · intro hc
       rw [h5c (fun x hx => hc x (by simp [hl, hx])), h3c (hc l (by simp [hl]))]
-    simp only [PendOf, h5.trans h3, hsp2, Option.getD_some, htrim, h.name.trimmed, true_and]
-    exact hcst
+    · simp [flagsOf, hemp, hl, foldHeader, h1, h5f]
+
+/-- `parse_header` on the header lines the writer produced. -/
+theorem parseHeader_hdr (os suf : Str) (c : Correction) (rest : List Str) (h : Simple c) (hs : SufOK '=' suf) :
+    ∃ p, parseHeader (fsOf suf) os (hdrL suf c ++ rest) = some (p, (hdrL suf c).length) ∧ PendOf os p c := by
+  have hd := parseDelimLine_rep '=' c.hlen suf h.hlen (by decide) hs
+  obtain ⟨st', hloop, htn, hcst, hfl⟩ := headerLoop_hdr os suf c rest h hs
+  have e0 : hdrL suf c ++ rest = (rep '=' c.hlen ++ (suf ++ ['\n'])) ::
+      (nameLines c ++ (attrLines c ++ (rep '=' c.hlen ++ (suf ++ ['\n'])) :: rest)) := by simp [hdrL]
+  have hlen : (hdrL suf c).length = (nameLines c).length + (attrLines c).length + 1 + 1 := by simp [hdrL]; omega
+  have htake : ((nameLines c ++ (attrLines c ++ (rep '=' c.hlen ++ (suf ++ ['\n'])) :: rest)).take
+      ((nameLines c).length + (attrLines c).length + 1 - 1)).flatten = (c.name ++ ['\n']) ++ (attrLines c).flatten := by
+    have : (nameLines c).length + (attrLines c).length + 1 - 1 = (nameLines c ++ attrLines c).length := by simp
+    rw [this, ← List.append_assoc, List.take_left' rfl]
+    simp [nameLines_flatten]
+  rw [e0, hlen]
+  simp only [parseHeader, hd, suffixMatches_fsOf, Bool.not_true, Bool.false_eq_true, ↓reduceIte, hloop, htake, htn,
+    stripPrefix_append, Option.getD_some, h.name.trimmed]
+  refine ⟨_, rfl, rfl, ?_, rfl, hcst, hfl⟩
+  -- the attribute text
+  rcases h.attrs with ha | ⟨⟨l, ls, hl, hm⟩, _, htrim⟩
+  · simp [attrLines, ha, trimEnd, dropWhileEnd]
+  · have hne : c.attrsStr ≠ [] := by
+      intro h0; rw [h0] at hl; simp [splitIncl] at hl
+      have := hl.1; subst this
+      simp [markerLine, trim, trimStart, trimEnd, dropWhileEnd, isWs] at hm
+    show trimEnd (attrLines c).flatten = c.attrsStr
+    rw [attrLines_flatten c hne, htrim]
 
 theorem drop_len_succ {α : Type} (a : List α) (x : α) (r : List α) : (a ++ x :: r).drop (a.length + 1) = r := by
   induction a with
@@ -400,7 +450,9 @@ theorem buildEntry_body (suf : Str) (c : Correction) (sep : List Str) (p : Pendi
     (h : Simple c) (hs : SufOK '-' suf) (hsep : ∀ l ∈ sep, NoDelim '-' l) :
     ∃ e, buildEntry (fsOf suf) (bodyL suf c ++ sep) p = some e ∧
       e.name = p.name ∧ e.attrsStr = p.attrsStr ∧ e.input = c.input ∧ e.hlen = p.hlen ∧ e.dlen = c.dlen ∧
-      (p.attrs.cst = false → e.output = normalizeSexp ('\n' :: (trim c.output ++ '\n' :: sep.flatten))) := by
+      e.attrs = p.attrs ∧
+      (p.attrs.cst = false → e.output = normalizeSexp ('\n' :: (trim c.output ++ '\n' :: sep.flatten)) ∧
+        e.hasFields = hasFieldsOf e.output) := by
   have hin : ∀ l ∈ splitIncl (c.input ++ ['\n']), NoDelim '-' l := fun l hl => (h.inputLines l hl).2
   have hrest : ∀ l ∈ splitIncl (trim c.output ++ ['\n']) ++ sep, NoDelim '-' l := by
     intro l hl
@@ -416,7 +468,7 @@ theorem buildEntry_body (suf : Str) (c : Correction) (sep : List Str) (p : Pendi
     simp only [bestDivider, parseDelimLine_rep '-' c.dlen suf h.dlen (by decide) hs, suffixMatches_fsOf,
       Bool.true_and, ge_iff_le, Nat.zero_le, decide_true, ↓reduceIte, Nat.zero_add, hnl]
     exact bestDivider_noDelim_end _ _ _ _ _ hrest
-  refine ⟨_, by simp only [buildEntry, hbest]; rfl, rfl, rfl, ?_, rfl, rfl, ?_⟩
+  refine ⟨_, by simp only [buildEntry, hbest]; rfl, rfl, rfl, ?_, rfl, rfl, rfl, ?_⟩
   · simp only [bodyL, List.append_assoc]
     rw [List.take_left' rfl, splitIncl_flatten]
     exact h.inputCr
@@ -461,16 +513,16 @@ theorem splitIncl_writeOne (suf : Str) (c : Correction) (rest : Str) (h : Simple
           (c.input ++ '\n' :: (rep '-' c.dlen ++ (suf ++ '\n' :: '\n' :: (trim c.output ++ '\n' :: rest)))))))) := by
       simp [writeOne, ha]
     rw [e, splitIncl_line_cons2 _ _ _ (nl_notin_rep '=' _ suf (by decide) hs),
-      splitIncl_line_cons _ _ h.name.noNl, tailEq]
-    simp [hdrL, attrLines, ha]
+      splitIncl_append c.name, tailEq]
+    simp [hdrL, attrLines, nameLines, ha]
   · have hemp : c.attrsStr.isEmpty = false := by cases hc : c.attrsStr <;> simp_all
     have e : writeOne suf c ++ rest =
         rep '=' c.hlen ++ (suf ++ '\n' :: (c.name ++ '\n' :: (c.attrsStr ++ '\n' :: (rep '=' c.hlen ++ (suf ++ '\n' ::
           (c.input ++ '\n' :: (rep '-' c.dlen ++ (suf ++ '\n' :: '\n' :: (trim c.output ++ '\n' :: rest))))))))) := by
       simp [writeOne, hemp]
     rw [e, splitIncl_line_cons2 _ _ _ (nl_notin_rep '=' _ suf (by decide) hs),
-      splitIncl_line_cons _ _ h.name.noNl, splitIncl_append c.attrsStr, tailEq]
-    simp [hdrL, attrLines, hemp]
+      splitIncl_append c.name, splitIncl_append c.attrsStr, tailEq]
+    simp [hdrL, attrLines, nameLines, hemp]
 
 /-- Lines of the tests after the first one: a blank separator line, then header and body. -/
 def tailLines (suf : Str) (cs : List Correction) : List Str :=
@@ -508,7 +560,7 @@ theorem bodyL_noHeader (suf : Str) (c : Correction) (h : Simple c) : ∀ l ∈ b
   · subst hl; exact noDelim_nl '=' (by decide)
   · exact (h.outputLines l hl).1
 
-theorem dkey_of_built {c0 : Correction} {p0 : Pending} {e : Entry} (hp : PendOf p0 c0)
+theorem dkey_of_built {os : Str} {c0 : Correction} {p0 : Pending} {e : Entry} (hp : PendOf os p0 c0)
     (h1 : e.name = p0.name) (h2 : e.attrsStr = p0.attrsStr) (h3 : e.input = c0.input)
     (h4 : e.hlen = p0.hlen) (h5 : e.dlen = c0.dlen) :
     e.dkey = c0.dkey := by
@@ -527,15 +579,15 @@ theorem scan_skip (fs : Option Str) (os : Str) :
 /-- One step of the scanning loop at a written header block. -/
 theorem scan_hdr (os suf : Str) (hse : SufOK '=' suf) (c : Correction) (hc : Simple c) (rest : List Str)
     (prev : Option Pending) (body : List Str) (acc : List Entry) :
-    ∃ p, PendOf p c ∧ scan (fsOf suf) os (hdrL suf c ++ rest) 0 prev body acc =
+    ∃ p, PendOf os p c ∧ scan (fsOf suf) os (hdrL suf c ++ rest) 0 prev body acc =
       scan (fsOf suf) os rest 0 (some p) [] (acc ++ finishPrev (fsOf suf) prev body) := by
   obtain ⟨p, hp, hpo⟩ := parseHeader_hdr os suf c rest hc hse
   refine ⟨p, hpo, ?_⟩
   have e3 : hdrL suf c ++ rest = (rep '=' c.hlen ++ (suf ++ ['\n'])) ::
-      (((c.name ++ ['\n']) :: (attrLines c ++ [rep '=' c.hlen ++ (suf ++ ['\n'])])) ++ rest) := by simp [hdrL]
+      ((nameLines c ++ (attrLines c ++ [rep '=' c.hlen ++ (suf ++ ['\n'])])) ++ rest) := by simp [hdrL]
   rw [e3] at hp ⊢
   simp only [scan, hp]
-  have : (hdrL suf c).length - 1 = ((c.name ++ ['\n']) :: (attrLines c ++ [rep '=' c.hlen ++ (suf ++ ['\n'])])).length := by
+  have : (hdrL suf c).length - 1 = (nameLines c ++ (attrLines c ++ [rep '=' c.hlen ++ (suf ++ ['\n'])])).length := by
     simp [hdrL]
   rw [this]
   exact scan_skip _ _ _ _ _ _ _
@@ -550,27 +602,29 @@ before the next header: nothing for the last test, one blank line otherwise). -/
 def outSection (c : Correction) (sepf : Str) : Str := '\n' :: (trim c.output ++ '\n' :: sepf)
 
 /-- Entry `e` is what the reader returns for the written correction `c`. -/
-def Built (e : Entry) (c : Correction) : Prop :=
-  e.dkey = c.dkey ∧
+def Built (os : Str) (e : Entry) (c : Correction) : Prop :=
+  e.dkey = c.dkey ∧ e.attrs = flagsOf os c.name c.attrsStr ∧
   ((∀ l ∈ splitIncl (c.attrsStr ++ ['\n']), noCstLine l) →
-    ∃ sepf, (sepf = [] ∨ sepf = ['\n']) ∧ e.output = normalizeSexp (outSection c sepf))
+    ∃ sepf, (sepf = [] ∨ sepf = ['\n']) ∧ e.output = normalizeSexp (outSection c sepf) ∧
+      e.hasFields = hasFieldsOf e.output)
 
 /-- The scanning loop over the remaining tests of a written file, a test `c0` being pending with its
 own body lines collected. -/
 theorem scan_tail (os suf : Str) (hse : SufOK '=' suf) (hsd : SufOK '-' suf) :
-    ∀ (cs : List Correction) (c0 : Correction) (p0 : Pending) (acc : List Entry), Simple c0 → PendOf p0 c0 →
+    ∀ (cs : List Correction) (c0 : Correction) (p0 : Pending) (acc : List Entry), Simple c0 → PendOf os p0 c0 →
       (∀ c ∈ cs, Simple c) →
       ∃ new, scan (fsOf suf) os (tailLines suf cs) 0 (some p0) (bodyL suf c0).reverse acc = acc ++ new ∧
-        All2 Built new (c0 :: cs)
+        All2 (Built os) new (c0 :: cs)
   | [], c0, p0, acc, h0, hp0, _ => by
-    obtain ⟨e, he, h1, h2, h3, h4, h5, h6⟩ := buildEntry_body suf c0 [] p0 h0 hsd (by simp)
+    obtain ⟨e, he, h1, h2, h3, h4, h5, h7, h6⟩ := buildEntry_body suf c0 [] p0 h0 hsd (by simp)
     simp only [List.append_nil] at he
     refine ⟨[e], by simp [tailLines, scan, finishPrev, he], ?_⟩
-    refine All2.cons ⟨dkey_of_built hp0 h1 h2 h3 h4 h5, fun hc => ⟨[], Or.inl rfl, ?_⟩⟩ All2.nil
-    simpa [outSection] using h6 (hp0.2.2.2 hc)
+    refine All2.cons ⟨dkey_of_built hp0 h1 h2 h3 h4 h5, h7.trans hp0.2.2.2.2, fun hc => ⟨[], Or.inl rfl, ?_⟩⟩ All2.nil
+    have h6' := h6 (hp0.2.2.2.1 hc)
+    exact ⟨by simpa [outSection] using h6'.1, h6'.2⟩
   | c :: cs, c0, p0, acc, h0, hp0, h => by
     have hc := h c (by simp)
-    obtain ⟨e, he, h1, h2, h3, h4, h5, h6⟩ := buildEntry_body suf c0 [['\n']] p0 h0 hsd
+    obtain ⟨e, he, h1, h2, h3, h4, h5, h7, h6⟩ := buildEntry_body suf c0 [['\n']] p0 h0 hsd
       (by intro l hl; simp at hl; subst hl; exact noDelim_nl '-' (by decide))
     have e1 : tailLines suf (c :: cs) = ['\n'] :: (hdrL suf c ++ (bodyL suf c ++ tailLines suf cs)) := by
       simp [tailLines]
@@ -584,8 +638,9 @@ theorem scan_tail (os suf : Str) (hse : SufOK '=' suf) (hsd : SufOK '-' suf) :
     simp only [List.append_nil]
     obtain ⟨new, hnew, hf2⟩ := scan_tail os suf hse hsd cs c p (acc ++ [e]) hc hpc (fun x hx => h x (by simp [hx]))
     refine ⟨e :: new, by rw [hnew]; simp, ?_⟩
-    refine All2.cons ⟨dkey_of_built hp0 h1 h2 h3 h4 h5, fun hcc => ⟨['\n'], Or.inr rfl, ?_⟩⟩ hf2
-    simpa [outSection] using h6 (hp0.2.2.2 hcc)
+    refine All2.cons ⟨dkey_of_built hp0 h1 h2 h3 h4 h5, h7.trans hp0.2.2.2.2, fun hcc => ⟨['\n'], Or.inr rfl, ?_⟩⟩ hf2
+    have h6' := h6 (hp0.2.2.2.1 hcc)
+    exact ⟨by simpa [outSection] using h6'.1, h6'.2⟩
 
 /-! ## the file's suffix as the reader discovers it -/
 
@@ -625,7 +680,7 @@ theorem firstSuffix_written (suf : Str) (hse : SufOK '=' suf) (c : Correction) (
       · simp only [hdrL, List.mem_cons, List.mem_append, List.not_mem_nil, or_false] at hl
         rcases hl with hl | hl | hl | hl
         · subst hl; rw [parseDelimLine_rep '=' c.hlen [] hc.hlen (by decide) hse'] at hp; simp at hp; exact hp.2
-        · subst hl; rw [parseDelimLine_noDelim hc.name.noDelim] at hp; simp at hp
+        · rw [parseDelimLine_noDelim (hc.name.lines l hl).1] at hp; simp at hp
         · rw [parseDelimLine_noDelim (attrLines_noDelim c hc l hl)] at hp; simp at hp
         · subst hl; rw [parseDelimLine_rep '=' c.hlen [] hc.hlen (by decide) hse'] at hp; simp at hp; exact hp.2
       · rw [parseDelimLine_noDelim (bodyL_noHeader [] c hc l hl)] at hp; simp at hp
@@ -644,7 +699,7 @@ theorem firstSuffix_written (suf : Str) (hse : SufOK '=' suf) (c : Correction) (
 file returns exactly one entry per correction, in order, each `Built` from its correction. -/
 theorem roundtrip_built (os suf : Str) (hse : SufOK '=' suf) (hsd : SufOK '-' suf) (cs : List Correction)
     (h : ∀ c ∈ cs, Simple c) :
-    All2 Built (parseFile os (writeTests suf cs)) cs := by
+    All2 (Built os) (parseFile os (writeTests suf cs)) cs := by
   cases cs with
   | nil =>
     have : parseFile os (writeTests suf []) = [] := by
@@ -661,7 +716,7 @@ theorem roundtrip_built (os suf : Str) (hse : SufOK '=' suf) (hsd : SufOK '-' su
     rw [hnew]
     exact hf2
 
-theorem forall2_map_dkey {es : List Entry} {cs : List Correction} (h : All2 Built es cs) :
+theorem forall2_map_dkey {os : Str} {es : List Entry} {cs : List Correction} (h : All2 (Built os) es cs) :
     es.map Entry.dkey = cs.map Correction.dkey := by
   induction h with
   | nil => rfl
